@@ -177,6 +177,26 @@ def one_config(spec, sl, kind):
                         viol("C19/restored-tree-behaves-differently", f"the tree restored at boundary {expect_next[0]} and the live tree, both run one step from the same random-generator states, differ afterwards (demes {diff[:4]}; {len(expect_next[1]['demes'])} vs {len(now['demes'])} demes; evaluations {expect_next[1]['n_evals']} vs {now['n_evals']}): the snapshot lost part of the state", expect_next[0])
                     expect_next = None
             live0 = snap(tree)
+            if k == 1:
+                # a dump that FAILS (the directory does not exist) and whose exception the caller catches leaves the
+                # live tree as it was: same state, reports still render, the next step still runs
+                failed = False
+                try:
+                    tree.pickle_dump(os.path.join(fn + ".no-such-directory", "snapshot.pkl"))
+                except Exception:  # noqa: BLE001
+                    failed = True
+                if failed:
+                    try:
+                        same = snap(tree) == live0
+                        tree.summary()
+                        for _, d in tree.all_demes:
+                            d.log("still alive")
+                    except Exception as e:  # noqa: BLE001
+                        same = False
+                        viol("C19/failed-dump-broke-the-live-tree", f"boundary {k}: after a pickle_dump that raised (unwritable path) the live tree cannot be used: {type(e).__name__}: {e}", k)
+                    if not same:
+                        viol("C19/failed-dump-broke-the-live-tree", f"boundary {k}: after a pickle_dump that raised (unwritable path) the live tree differs from before", k)
+                        break
             st_np = np.random.get_state()[1].copy()
             st_py = random.getstate()
             sum0 = tree.summary()
